@@ -8,7 +8,7 @@ from props.common import load_impl, exc_name
 import worker
 
 RULE = ("random small datasets x methods (neighbor K=1 default/grouped provenance, neighbor K=2 through the ADD path, bruteforce, montecarlo) x utilities "
-        "(accuracy with 1-NN / logistic regression, JointUtility): the same case is scored (a) twice in-process on fresh objects, (b) again after re-seeding and "
+        "(accuracy with 1-NN / logistic regression / estimators that draw from numpy's global generator (random-splitter tree, small forest, random_state=None), JointUtility): the same case is scored (a) twice in-process on fresh objects, (b) again after re-seeding and "
         "advancing numpy's and random's global generators, (c) in fresh interpreter processes with PYTHONHASHSEED = 0, 1 and a random value; all score vectors must be "
         "bit-identical (compared as bytes) and montecarlo must draw identical permutations; (d) neighbor and bruteforce must not change when the seed changes; "
         "(e) montecarlo with different seeds but identical (injected) permutations must return identical scores. Non-trivial = the score vector is not constant; "
@@ -31,17 +31,22 @@ def run(ctx):
     q = ctx.tier == "quick"
     n_cases = 14 if q else 80
     for it in range(n_cases):
-        method = ["neighbor", "neighborK", "bruteforce", "montecarlo", "neighbor", "montecarlo", "bruteforce"][it % 7]
-        n = rng.randint(3, 5 if method != "neighbor" else 9)
+        method = ["neighbor", "neighborK", "bruteforce", "montecarlo", "mc-trunc", "montecarlo", "mc-trunc"][it % 7]
+        mc_trunc = method == "mc-trunc"
+        if mc_trunc:
+            method = "montecarlo"
+        n = rng.randint(4, 6 if method != "neighbor" else 9)
+        if mc_trunc:
+            n = rng.randint(7, 10)
         nprng = np.random.RandomState(rng.randrange(2 ** 31))
         X = np.round(nprng.randn(n, 2), 3).tolist()
         c = rng.randint(2, 3)
         y = [i % c for i in range(n)]
         rng.shuffle(y)
-        m = rng.randint(2 if method == "montecarlo" else 1, 4)      # mean_score subsamples half of the validation set: needs >= 2 points
+        m = rng.randint(2 if method == "montecarlo" else 1, 4) if not mc_trunc else rng.randint(6, 10)      # mean_score subsamples half of the validation set: needs >= 2 points
         Xv = np.round(nprng.randn(m, 2), 3).tolist()
         yv = [rng.randrange(c) for _ in range(m)]
-        case = dict(X=X, y=y, Xv=Xv, yv=yv, model=rng.choice(["knn", "logreg"]) if method in ("bruteforce", "montecarlo") else "knn",
+        case = dict(X=X, y=y, Xv=Xv, yv=yv, model=rng.choice(["knn", "logreg", "rtree", "rtree", "rforest"]) if method in ("bruteforce", "montecarlo") else "knn",
                     joint=(rng.random() < 0.3), method=("neighbor" if method.startswith("neighbor") else method), kw={})
         seed = rng.randrange(10 ** 6)
         if method == "neighbor" and rng.random() < 0.5:
@@ -56,8 +61,14 @@ def run(ctx):
             case["n_units"] = n_units
             case["conj"] = [sorted(rng.sample(range(n_units), rng.randint(1, min(2, n_units)))) for _ in range(n)]
             case["joint"] = False
-        if method == "montecarlo":
-            case["kw"] = {"mc_iterations": rng.randint(2, 6), "mc_truncation_steps": rng.choice([0, 2]), "seed": seed}
+        if mc_trunc:
+            # truncation is steered by utility.mean_score, which fits the model once more: a randomised estimator (random_state=None) makes any
+            # unseeded use of the global generator visible in WHERE permutations are cut
+            case["model"] = rng.choice(["rtree", "rforest"])
+            case["joint"] = False
+            case["kw"] = {"mc_iterations": rng.randint(6, 12), "mc_truncation_steps": 1, "mc_tolerance": rng.choice([0.25, 0.5, 1.0]), "seed": seed}
+        elif method == "montecarlo":
+            case["kw"] = {"mc_iterations": rng.randint(2, 6), "mc_truncation_steps": rng.choice([0, 1, 2]), "mc_tolerance": rng.choice([0.1, 0.5]), "seed": seed}
         if method == "bruteforce":
             case["kw"] = {"seed": seed}
         try:
